@@ -159,6 +159,11 @@ for _pid, _what in {
 @check("C06")
 def c06(prop, tier, t0):
     m = grid_run("c06", tier)
+    # the same rest-value oracle when the output is read slowly (Engine B: instrumented device, output capacity 1, all schedules
+    # up to the preemption bound): the pitch-bend axis ends at rest => the receiver ends at 8192
+    sm, scov = engb_run(prop, tier, "c16", 2 if tier == "quick" else 3, budget="45s" if tier == "quick" else "600s", select=lambda n: "pitch-bend axis through a slow output" in n)
+    m["violations"].extend(sm["violations"])
+    m["exhaustive"] = m["exhaustive"] and sm["exhaustive"]
     # state part: the same axes with different deadzones in three mappings, mapping up/down incl. pair reset (Engine A)
     bm, bcov = enga_run(prop, tier)
     m["violations"].extend(bm["violations"])
@@ -167,6 +172,8 @@ def c06(prop, tier, t0):
                          "8-bit axes: EVERY ordered pair (previous raw, new raw); 16-bit: edge neighbourhoods + every 257th value after 5 previous values; compared at the receiver with an exact-rational reference "
                          "(within one step, monotonic, end stops exact, rest value exact); plus end stops/centre for every deadzone 0.00..0.99. distinct_nontrivial = configuration variants driven.")
     cov["bfs_states"], cov["bfs_transitions"], cov["bfs_traces_validated_against_impl"] = bcov["states"], bcov["transitions"], bcov["traces_validated_against_impl"]
+    cov["slow_output_executions"] = scov["executions"]
+    cov["rule"] += " Plus (Engine B) the pitch-bend axis swung end to end and back to rest through an output of capacity 1 with a consumer of arbitrary speed: every schedule up to the preemption bound ends with 8192 at the receiver."
     cov["rule"] += " Plus an explicit-state search (Engine A) over axis positions x mapping up/down (three mappings giving the same axes different deadzones / flip, incl. the pair reset): after every transmitted step the receiver value must match the CURRENT mapping's transfer function."
     return vlib.finish(prop, tier, "exploration", m, cov, [
         "axes whose AbsInfo has max <= 0 or min > max are outside 'within the axis' reported range'",
@@ -419,7 +426,7 @@ def c19(prop, tier, t0):
 @check("C16")
 def c16(prop, tier, t0):
     bound = 2 if tier == "quick" else 3
-    m, cov = engb_run(prop, tier, "c16", bound, budget="45s" if tier == "quick" else "900s", select=lambda n: "bidirectional axis" not in n)
+    m, cov = engb_run(prop, tier, "c16", bound, budget="45s" if tier == "quick" else "900s", select=lambda n: "axis through a slow output" not in n)
     cov["explanation"] = ("real device package (events.go, device.go, open_rgb.go instrumented incl. data-access annotations) + fake OpenRGB under the controlled scheduler: event feeder, MIDI-input feeder, output drainer, "
                           "ProcessEvents with its LED and MIDI-input goroutines; OpenRGB absent / connected (virtual time) / failing (up to 2, thorough 3, failing calls or the server gone for good, at every call: explicit environment choices), MIDI input nil / live, two devices on one output. Oracle per schedule: ProcessEvents returns after the stream "
                           "ends and nothing it started stays blocked, no happens-before race on any mutable Device field, last LED frame all red, each device's output equals its output when run alone.")
